@@ -112,6 +112,7 @@ class Facts:
     def __init__(self, ge=(), free=()):
         self.ge = list(ge)
         self.free = set(free)
+        self._fixed_cache = None
 
     def extend(self, *ge):
         return Facts(self.ge + [Lin.of(g) for g in ge], self.free)
@@ -126,9 +127,26 @@ class Facts:
             return False
         return L._plain_nonneg()
 
+    def _fixed(self):
+        """variables pinned to a constant by a pair of facts  v - c >= 0  and  c - v >= 0"""
+        if getattr(self, "_fixed_cache", None) is not None and self._fixed_cache[0] == len(self.ge):
+            return self._fixed_cache[1]
+        fixed = {}
+        keys = {g.key() for g in self.ge}
+        for g in self.ge:
+            if len(g.t) == 1:
+                (v, c), = g.t.items()
+                if (-g).key() in keys and c in (1, -1):
+                    fixed[v] = -g.c / c
+        self._fixed_cache = (len(self.ge), fixed)
+        return fixed
+
     def nonneg(self, L, depth=2):
         """entails L >= 0 ?  (sound, incomplete)"""
         L = Lin.of(L)
+        fixed = self._fixed()
+        if fixed and any(v in fixed for v in L.t):
+            L = L.subst(fixed)
         if self._nonneg0(L):
             return True
         if depth == 0:
